@@ -336,6 +336,17 @@ def r4(ctx):
     ok2 = any(isinstance(s.ast.value, ast.Call) and "validator" in norm(s.ast.value.func) for s in fset.cfg.stmts(ast.Assign) if any(tail(t) == "value" for t in s.ast.targets))
     ctx.check("C16.R4", ok2, key(fset, "validated-store"), site(fset), "Setting.set stores a value without passing it through the validator", "value = validator(val)")
     ff = ctx.fn(repo.func(APP + ".Application.get_config_from_filename"))
+    exe = [c for c in method_calls(ff, "exec_module")]
+    ctx.need(exe, "C16.R3: get_config_from_filename does not execute the file")
+    for c in exe:
+        a = c.args[0] if c.args else None
+        fresh = isinstance(a, ast.Name) and bool(stores_to_name(ff, a.id)) and all(isinstance(s.ast, ast.Assign) and "module_from_spec(" in norm(s.ast.value) for s in stores_to_name(ff, a.id))
+        ctx.check("C16.R3", fresh, key(ff, "fresh-module"), site(ff, c), "the configuration file is executed in a namespace that is not a fresh module (`%s`): names the file no longer assigns survive a reload "
+                  "and are applied as if the file still mentioned them" % (norm(a) if a is not None else None), "fresh module per load")
+    rv = [r for r in ff.cfg.stmts(ast.Return)]
+    ctx.check("C16.R3", bool(rv) and all(isinstance(r.ast.value, ast.Call) and norm(r.ast.value.func) == "vars" and isinstance(r.ast.value.args[0], ast.Name) and
+                                         r.ast.value.args[0].id in [norm(c.args[0]) for c in exe] for r in rv), key(ff, "returns-that-namespace"), site(ff),
+              "get_config_from_filename does not return the namespace it just executed", "vars(mod)")
     hs = [h for h in walk_own(ff.node) if isinstance(h, ast.ExceptHandler)]
     okk = all(isinstance(h.body[-1], ast.Expr) and isinstance(h.body[-1].value, ast.Call) and repo.call_target(ff.module, ff, h.body[-1].value) == "sys.exit" and const(h.body[-1].value.args[0], 0) not in (0, None)
               or _reraises(repo, ff, h) for h in hs)
